@@ -93,6 +93,94 @@ def loop_one(dt):
                        extra_backend=dict(while_loop_winfo=K.capture_loop(store)))
 
 
+def relation_one(dt):
+    """The Arnoldi relation, proved (not assumed) from the real code's outputs by the invariant rule and two facts about finite sums:
+    sum_{l<t+1} f = sum_{l<t} f + f(t)  (instances only) and congruence of the summand on the range (krylov_common.simp_under).
+
+      fold invariant  Inv(t):  (A q_idx)[r] = w_t[r] + sum_{l<t} h_t[l] Q[r, l]   and   h_t[l] = 0 for l >= t
+        initially (t = 0, state (A q_idx, 0)), preserved by the REAL inner_loop body at an arbitrary t and partial state
+      conclusion  (from Inv(idx+1) for the fold result and the REAL rest of body_fun, when the normalisation is not clipped, ||w|| >= tol/2 > 0):
+        (A q_idx)[r] = sum_{l < idx+2} H'[l, idx] Q'[r, l]      and      H'[l, idx] = 0 for l > idx+1      (new column of A Q = Q H, Hessenberg)
+        H'[:, c] = H[:, c] and Q'[:, l] = Q[:, l] for c < idx, l <= idx                                   (older columns keep their relation)"""
+    from vcgen.rules import sym_dim
+    Ar = importlib.import_module("cola.linalg.decompositions.arnoldi")
+    dtype = np.float64 if dt == "real" else np.complex128
+    store = {}
+    fl = {}
+
+    def thunk():
+        n, b, mi = sym_dim("n"), sym_dim("b"), sym_dim("max_iters")
+        A, a = idx.make_abstract_op("A", n, n, dtype)
+        Q = state_array("Q", (b, n, mi + 1), dtype)
+        H = state_array("H", (b, mi + 1, mi), dtype)
+        k = SInt(z3.Int(CTX.fresh("idx")))
+        tol = SScal(z3.Real(CTX.fresh("tol")))
+        CTX.assume(tol.re > 0)
+        nrm = state_array("norm", (b,), np.float64)
+        goals = []
+        bb, r, l0 = z3.Int(CTX.fresh("bb")), z3.Int(CTX.fresh("r")), z3.Int(CTX.fresh("l"))
+        CTX.assume(z3.And(bb >= 0, bb < b.term, r >= 0, r < n.term, l0 >= 0, l0 < mi.term + 1))
+
+        def for_loop(lo, hi, body, init):
+            W0, h0 = init
+            fl["W0"] = W0
+            t = SInt(z3.Int(CTX.fresh("t")))
+            CTX.assume(z3.And(t.term >= iterm(lo), t.term < iterm(hi)))
+            w = state_array("w_partial", W0.shape, W0.dtype)
+            h = state_array("h_partial", h0.shape, h0.dtype)
+            w1, h1 = body(t, (w, h))
+            facts = CTX.facts()
+            f_old = lambda l: idx._mulv(one(h, bb, l), one(Q, bb, r, l))  # noqa
+            f_new = lambda l: idx._mulv(one(h1, bb, l), one(Q, bb, r, l))  # noqa
+            inv_t = one(W0, bb, r) == one(w, bb, r) + K.psum_raw(f_old, z3.IntVal(0), t.term)
+            # sum_{l<t+1} f_new = sum_{l<t} f_new + f_new(t)  [instance]; on l < t the summand f_new agrees with f_old  [congruence on the range]
+            split = K.psum_raw(f_new, z3.IntVal(0), t.term + 1) == K.psum(f_new, z3.IntVal(0), t.term, facts) + f_new(t.term)
+            goals.append(("fold invariant holds initially: A q_idx = w_0 + (empty sum), h_0 = 0",
+                          z3.And(iterm(lo) == 0, one(h0, bb, l0) == 0)))
+            goals.append(("fold invariant preserved by the real Gram-Schmidt step: A q_idx = w + sum_{l<t} h[l] Q_l",
+                          z3.Implies(z3.And(inv_t, split), one(W0, bb, r) == one(w1, bb, r) + K.psum_raw(f_new, z3.IntVal(0), t.term + 1))))
+            goals.append(("cover: the hypotheses of the preservation obligation are satisfiable", z3.Not(z3.And(inv_t, split))))
+            goals.append(("fold invariant preserved: h[l] = 0 for l >= t", z3.Implies(z3.And(z3.Implies(l0 >= t.term, one(h, bb, l0) == 0), l0 >= t.term + 1), one(h1, bb, l0) == 0)))
+            fl["wfin"] = state_array("w_fold", W0.shape, W0.dtype)
+            fl["hfin"] = state_array("h_fold", h0.shape, h0.dtype)
+            fl["hi"] = hi
+            return fl["wfin"], fl["hfin"]
+        ifns.for_loop = for_loop
+        mcap = mi if bool(mi <= n) else n
+        CTX.assume(z3.And(k.term >= 0, k.term < mcap.term))
+        Ar.arnoldi_fact(A, (Q, H, k, nrm), max_iters=mi, tol=tol, pbar=False)
+        Q1, H1, k1, n1 = store["body"]((Q, H, k, nrm))
+        facts = CTX.facts()
+        wf, hf, W0 = fl["wfin"], fl["hfin"], fl["W0"]
+        # exit of the fold (t = idx + 1), by induction from the two obligations above
+        f_fin = lambda l: idx._mulv(one(hf, bb, l), one(Q, bb, r, l))  # noqa
+        inv_exit = z3.And(one(W0, bb, r) == one(wf, bb, r) + K.psum_raw(f_fin, z3.IntVal(0), k.term + 1),
+                          z3.Implies(l0 >= k.term + 1, one(hf, bb, l0) == 0))
+        f_out = lambda l: idx._mulv(one(H1, bb, l, k.term), one(Q1, bb, r, l))  # noqa
+        split = K.psum_raw(f_out, z3.IntVal(0), k.term + 2) == K.psum(f_out, z3.IntVal(0), k.term + 1, facts) + f_out(k.term + 1)
+        nv = one(n1, bb)
+        x = one(wf, bb, r)
+        noclip = z3.And(nv >= tol.re / 2, kidx.CLIPLO(nv, tol.re / 2) == nv)            # clip(x, lo) = x for x >= lo  [instance]
+        field = z3.And(*[alg.rm(p, alg.rm(q_, alg.rinv(nv))) == x for p, q_ in ((nv, x),)] +
+                       [alg.rm(p, alg.rm(alg.rinv(nv), q_)) == x for p, q_ in ((nv, x),)] +
+                       [alg.rm(alg.rm(q_, alg.rinv(nv)), p) == x for p, q_ in ((nv, x),)] +
+                       [alg.rm(alg.rm(alg.rinv(nv), q_), p) == x for p, q_ in ((nv, x),)])  # nv * (x / nv) = x for nv != 0  [instances, every orientation]
+        goals.append(("ARNOLDI RELATION for the new column: (A q_idx)[r] = sum_{l<idx+2} H'[l, idx] Q'[r, l]   (normalisation not clipped)",
+                      z3.Implies(z3.And(inv_exit, split, noclip, field), one(W0, bb, r) == K.psum_raw(f_out, z3.IntVal(0), k.term + 2))))
+        goals.append(("cover: the hypotheses of the relation obligation are satisfiable (invariant at exit, sum split, no clipping, field instances)",
+                      z3.Not(z3.And(inv_exit, split, noclip, field))))
+        goals.append(("the left-hand side is A applied to q_idx", one(W0, bb, r) == one(apply_op(A, col(Q, k)), bb, r)))
+        goals.append(("UPPER HESSENBERG: H'[l, idx] = 0 for l > idx + 1", z3.Implies(z3.And(inv_exit, l0 > k.term + 1), one(H1, bb, l0, k.term) == 0)))
+        goals.append(("sub-diagonal entry H'[idx+1, idx] = ||w|| >= 0", z3.And(one(H1, bb, k.term + 1, k.term) == nv, z3.Implies(nv == kidx.RSQRT(z3.Real("any")), True))))
+        c0 = z3.Int(CTX.fresh("c"))
+        goals.append(("older columns are untouched: H'[:, c] = H[:, c] for c != idx and Q'[:, l] = Q[:, l] for l != idx + 1 (their relation is preserved)",
+                      z3.And(z3.Implies(z3.And(c0 >= 0, c0 < mi.term, c0 != k.term), one(H1, bb, l0, c0) == one(H, bb, l0, c0)),
+                             z3.Implies(l0 != k.term + 1, one(Q1, bb, r, l0) == one(Q, bb, r, l0)))))
+        return goals
+    return K.run_paths(f"C15/arnoldi relation[{dt}]", FN + "arnoldi_fact", thunk, dict(engine="ARNOLDI", part="relation", dtype=dt),
+                       extra_backend=dict(while_loop_winfo=K.capture_loop(store)))
+
+
 def init_one(dt):
     from vcgen.rules import sym_dim
     Ar = importlib.import_module("cola.linalg.decompositions.arnoldi")
@@ -219,13 +307,13 @@ def run(chk):
     chk.assume("the Householder variant (use_householder=True) and batched start vectors (xnp.vmap) are outside the domain")
     tasks = [("loop", "real"), ("loop", "complex"), ("init", "real"), ("init", "complex"), ("init", "mixed"),
              ("wrapper", "real", "cap<n"), ("wrapper", "real", "cap>=n"), ("wrapper", "complex", "cap<n"), ("wrapper", "complex", "cap>=n"),
-             ("eigs", "real"), ("eigs", "complex")]
+             ("eigs", "real"), ("eigs", "complex"), ("relation", "real"), ("relation", "complex")]
     for nm in ("arnoldi_fact", "init_arnoldi", "arnoldi", "arnoldi_eigs"):
         chk.under_contract(FN + nm)
 
     def work(j):
         t = tasks[j]
-        return {"loop": loop_one, "init": init_one, "wrapper": wrapper_one, "eigs": eigs_one}[t[0]](*t[1:])
+        return {"loop": loop_one, "init": init_one, "wrapper": wrapper_one, "eigs": eigs_one, "relation": relation_one}[t[0]](*t[1:])
     for obs in pmap(work, len(tasks)):
         for ob in obs:
             chk.add(ob)
